@@ -111,3 +111,18 @@ func (module *InMemoryStorage) VerifShiftTimes(deltaMs int64) {
 		clusterMap.consumerLock.Unlock()
 	}
 }
+
+// VerifStart runs the real Start (cluster maps from viper's "cluster" section, worker goroutines, main loop)
+// with the given number of workers and queue depth; requests then go through VerifChannel.
+func (module *InMemoryStorage) VerifStart(workers, queueDepth int) error {
+	module.numWorkers = workers
+	module.queueDepth = queueDepth
+	module.requestChannel = make(chan *protocol.StorageRequest, queueDepth)
+	return module.Start()
+}
+
+// VerifStop runs the real Stop.
+func (module *InMemoryStorage) VerifStop() error { return module.Stop() }
+
+// VerifChannel is the module's request channel (what the storage coordinator forwards to).
+func (module *InMemoryStorage) VerifChannel() chan *protocol.StorageRequest { return module.requestChannel }
